@@ -133,4 +133,35 @@ theorem runParser_count_cluster {q : Parser} (hf : finishable q.opts = true) {o 
     simp only [setv]
     exact has_set (hh1 d (by simpa [PS.init] using hd')) _ _
 
+/-! ### `store_false` and `store_const` alone -/
+
+theorem runP_single_noarg2 {tbl : List OptSpec} {s : Name} {o : OptSpec} {b : Bool} (hs : s ≠ dd)
+    (hc : classify tbl s = .opt o b none) (hk : o.kind = .flagOff ∨ ∃ v, o.kind = .const v) :
+    runP tbl [s] (PS.init tbl) =
+      match applyNoArg o (PS.init tbl) with
+      | .error e => .error e
+      | .ok ps => finish tbl ps := by
+  have hi : (PS.init tbl).afterDD = false := rfl
+  rw [runP]
+  simp only [hi, Bool.false_eq_true, if_false, hs, hc, closeRun_init, applyAll]
+  rcases hk with hk | ⟨v, hk⟩ <;> simp only [hk] <;> cases applyNoArg o (PS.init tbl) <;> simp [runP]
+
+/-- a `store_false` option alone -/
+theorem runParser_flagOff {q : Parser} (hf : finishable q.opts = true) {s : Name} {o : OptSpec} {b : Bool}
+    (hs : s ≠ dd) (hc : classify q.opts s = .opt o b none) (hk : o.kind = .flagOff) :
+    SingleOk q [s] o (.bool false) := by
+  obtain ⟨ps1, h1, h2, h3, h4, _⟩ := mutexOk_init o (PS.init q.opts) rfl
+  apply single_finish hf h2 h3 h4 (ambiguousIn_opt hc [] rfl)
+  rw [runP_single_noarg2 hs hc (Or.inl hk)]
+  simp [applyNoArg, hk, h1]
+
+/-- a `store_const` option alone -/
+theorem runParser_const {q : Parser} (hf : finishable q.opts = true) {s : Name} {o : OptSpec} {b : Bool} {v : Name}
+    (hs : s ≠ dd) (hc : classify q.opts s = .opt o b none) (hk : o.kind = .const v) :
+    SingleOk q [s] o (.str v) := by
+  obtain ⟨ps1, h1, h2, h3, h4, _⟩ := mutexOk_init o (PS.init q.opts) rfl
+  apply single_finish hf h2 h3 h4 (ambiguousIn_opt hc [] rfl)
+  rw [runP_single_noarg2 hs hc (Or.inr ⟨v, hk⟩)]
+  simp [applyNoArg, hk, h1]
+
 end CliGraph
